@@ -2,6 +2,11 @@
 // per-direction byte queue whose blocking is decided by the scheduler, with
 // injectable faults. Deadlines are ignored (time is not a source of
 // nondeterminism inside an execution).
+//
+// All state of a pipe is guarded by one real mutex. Under the cooperative
+// scheduler it is never contended; it exists so that the race detector sees
+// the happens-before edges a real connection provides (bytes written are
+// visible to the reader) and none of the harness's own accesses as races.
 package vconn
 
 import (
@@ -9,6 +14,7 @@ import (
 	"errors"
 	"io"
 	"net"
+	"sync"
 	"time"
 	"unsafe"
 
@@ -27,7 +33,6 @@ type dir struct {
 	wclosed bool // writing end closed: reader sees EOF after draining
 	rclosed bool // reading end closed: writer fails
 	readErr error
-	total   int64 // bytes ever written
 	frames  [][]byte
 }
 
@@ -37,6 +42,7 @@ func (d *dir) id() uintptr { return uintptr(unsafe.Pointer(d)) }
 type Conn struct {
 	Name string
 	r, w *dir
+	mu   *sync.Mutex
 	// FaultyWrites / FaultyReads turn every Write / Read into a choice
 	// point {succeed, fail} costing one deviation for the failure.
 	FaultyWrites bool
@@ -45,7 +51,6 @@ type Conn struct {
 	Chunk    int
 	writeErr error
 	closed   bool
-	Writes   int
 }
 
 // Pipe returns two connected ends. With sync, a Write returns only after
@@ -55,20 +60,38 @@ func Pipe(sync bool) (*Conn, *Conn) { return PipeDirs(sync, sync) }
 // PipeDirs is Pipe with the blocking behaviour chosen per direction
 // (A to B, B to A).
 func PipeDirs(syncAB, syncBA bool) (*Conn, *Conn) {
+	mu := &sync.Mutex{}
 	ab, ba := &dir{sync: syncAB}, &dir{sync: syncBA}
-	return &Conn{Name: "A", r: ba, w: ab}, &Conn{Name: "B", r: ab, w: ba}
+	return &Conn{Name: "A", r: ba, w: ab, mu: mu}, &Conn{Name: "B", r: ab, w: ba, mu: mu}
+}
+
+func frameLen(b []byte) (int, bool) {
+	if len(b) < 4 {
+		return 0, false
+	}
+	n := int(binary.LittleEndian.Uint32(b))
+	return n, n >= 4 && len(b) >= n
 }
 
 func (c *Conn) Read(p []byte) (int, error) {
 	d := c.r
-	if c.FaultyReads {
+	c.mu.Lock()
+	faulty := c.FaultyReads
+	c.mu.Unlock()
+	if faulty {
 		if vsched.Choose("conn.Read?"+c.Name, 2, true) == 1 {
+			c.mu.Lock()
 			d.readErr = ErrInjectedRead
+			c.mu.Unlock()
 		}
 	}
 	vsched.WaitFor("conn.Read:"+c.Name, d.id(), func() bool {
+		c.mu.Lock()
+		defer c.mu.Unlock()
 		return len(d.buf) > 0 || d.wclosed || d.rclosed || d.readErr != nil
 	})
+	c.mu.Lock()
+	defer c.mu.Unlock()
 	if d.rclosed {
 		return 0, io.ErrClosedPipe
 	}
@@ -93,26 +116,39 @@ func (c *Conn) Read(p []byte) (int, error) {
 func (c *Conn) Write(p []byte) (int, error) {
 	d := c.w
 	fail := 0
-	if c.FaultyWrites {
+	c.mu.Lock()
+	faulty := c.FaultyWrites
+	c.mu.Unlock()
+	if faulty {
 		fail = vsched.Choose("conn.Write?"+c.Name, 2, true)
 	} else {
 		vsched.Yield("conn.Write:"+c.Name, d.id())
 	}
-	c.Writes++
+	c.mu.Lock()
 	if fail == 1 {
 		c.writeErr = ErrInjectedWrite
 	}
 	if c.closed || d.rclosed {
+		c.mu.Unlock()
 		return 0, io.ErrClosedPipe
 	}
 	if c.writeErr != nil {
-		return 0, c.writeErr
+		err := c.writeErr
+		c.mu.Unlock()
+		return 0, err
 	}
 	d.buf = append(d.buf, p...)
-	d.total += int64(len(p))
 	d.frames = append(d.frames, append([]byte(nil), p...))
-	if d.sync {
-		vsched.WaitFor("conn.WriteDrain:"+c.Name, d.id(), func() bool { return len(d.buf) == 0 || d.rclosed })
+	sync := d.sync
+	c.mu.Unlock()
+	if sync {
+		vsched.WaitFor("conn.WriteDrain:"+c.Name, d.id(), func() bool {
+			c.mu.Lock()
+			defer c.mu.Unlock()
+			return len(d.buf) == 0 || d.rclosed
+		})
+		c.mu.Lock()
+		defer c.mu.Unlock()
 		if len(d.buf) > 0 {
 			return len(p) - len(d.buf), io.ErrClosedPipe
 		}
@@ -130,84 +166,72 @@ func (c *Conn) Close() error {
 // CloseNow closes without a scheduling point (for harness code that has
 // just passed one).
 func (c *Conn) CloseNow() {
+	c.mu.Lock()
+	defer c.mu.Unlock()
 	c.closed = true
 	c.w.wclosed = true
 	c.r.rclosed = true
 }
 
+// SetFaulty switches fault choice points on or off.
+func (c *Conn) SetFaulty(reads, writes bool) {
+	c.mu.Lock()
+	defer c.mu.Unlock()
+	c.FaultyReads, c.FaultyWrites = reads, writes
+}
+
 // Faulted reports whether an injected read or write error has struck this end.
-func (c *Conn) Faulted() bool { return c.writeErr != nil || c.r.readErr != nil }
+func (c *Conn) Faulted() bool {
+	c.mu.Lock()
+	defer c.mu.Unlock()
+	return c.writeErr != nil || c.r.readErr != nil
+}
 
 // FailReads makes every later Read of this end fail with err.
-func (c *Conn) FailReads(err error) { c.r.readErr = err }
+func (c *Conn) FailReads(err error) { c.mu.Lock(); c.r.readErr = err; c.mu.Unlock() }
 
 // FailWrites makes every later Write of this end fail with err.
-func (c *Conn) FailWrites(err error) { c.writeErr = err }
-
-// Pending returns the bytes written to this end's peer but not yet read by it.
-func (c *Conn) Pending() []byte { return c.w.buf }
-
-// Unread returns the bytes sent to this end that it has not read.
-func (c *Conn) Unread() []byte { return c.r.buf }
+func (c *Conn) FailWrites(err error) { c.mu.Lock(); c.writeErr = err; c.mu.Unlock() }
 
 // Written returns every Write call's bytes on this end, in order.
-func (c *Conn) Written() [][]byte { return c.w.frames }
+func (c *Conn) Written() [][]byte { c.mu.Lock(); defer c.mu.Unlock(); return c.w.frames }
 
 // ReadFrame blocks until a whole 9P frame (size[4] + body) is available and
 // pops it atomically. It returns io.EOF when the peer closed at a frame
 // boundary and io.ErrUnexpectedEOF inside a frame.
 func (c *Conn) ReadFrame() ([]byte, error) {
-	d := c.r
-	full := func() bool {
-		if len(d.buf) < 4 {
-			return false
-		}
-		n := int(binary.LittleEndian.Uint32(d.buf))
-		return n >= 4 && len(d.buf) >= n
+	f, err := c.ReadFrameOr(nil)
+	if f == nil && err == nil {
+		err = io.ErrUnexpectedEOF
 	}
-	vsched.WaitFor("conn.ReadFrame:"+c.Name, d.id(), func() bool { return full() || d.wclosed || d.rclosed })
-	if d.rclosed {
-		return nil, io.ErrClosedPipe
-	}
-	if full() {
-		n := int(binary.LittleEndian.Uint32(d.buf))
-		f := append([]byte(nil), d.buf[:n]...)
-		d.buf = d.buf[n:]
-		return f, nil
-	}
-	if len(d.buf) == 0 {
-		return nil, io.EOF
-	}
-	return nil, io.ErrUnexpectedEOF
+	return f, err
 }
 
 // FrameReady reports whether a complete frame can be read without blocking.
 func (c *Conn) FrameReady() bool {
-	d := c.r
-	if len(d.buf) < 4 {
-		return false
-	}
-	n := int(binary.LittleEndian.Uint32(d.buf))
-	return n >= 4 && len(d.buf) >= n
+	c.mu.Lock()
+	defer c.mu.Unlock()
+	_, ok := frameLen(c.r.buf)
+	return ok
 }
 
 // ReadObj is the identity of this end's receive queue (for Yield).
 func (c *Conn) ReadObj() uintptr { return c.r.id() }
 
 // ReadFrameOr is ReadFrame that also returns (nil, nil) once stop() holds
-// and no complete frame is available.
+// and no complete frame is available. stop is evaluated by the scheduler.
 func (c *Conn) ReadFrameOr(stop func() bool) ([]byte, error) {
 	d := c.r
-	full := func() bool {
-		if len(d.buf) < 4 {
-			return false
-		}
-		n := int(binary.LittleEndian.Uint32(d.buf))
-		return n >= 4 && len(d.buf) >= n
-	}
-	vsched.WaitFor("conn.ReadFrameOr:"+c.Name, d.id(), func() bool { return full() || d.wclosed || d.rclosed || stop() })
-	if full() {
-		n := int(binary.LittleEndian.Uint32(d.buf))
+	vsched.WaitFor("conn.ReadFrame:"+c.Name, d.id(), func() bool {
+		c.mu.Lock()
+		_, full := frameLen(d.buf)
+		ok := full || d.wclosed || d.rclosed
+		c.mu.Unlock()
+		return ok || (stop != nil && stop())
+	})
+	c.mu.Lock()
+	defer c.mu.Unlock()
+	if n, full := frameLen(d.buf); full {
 		f := append([]byte(nil), d.buf[:n]...)
 		d.buf = d.buf[n:]
 		return f, nil
@@ -216,7 +240,10 @@ func (c *Conn) ReadFrameOr(stop func() bool) ([]byte, error) {
 		return nil, io.ErrClosedPipe
 	}
 	if d.wclosed {
-		return nil, io.EOF
+		if len(d.buf) == 0 {
+			return nil, io.EOF
+		}
+		return nil, io.ErrUnexpectedEOF
 	}
 	return nil, nil
 }
@@ -224,11 +251,13 @@ func (c *Conn) ReadFrameOr(stop func() bool) ([]byte, error) {
 // TryFrames pops all complete frames currently readable without blocking
 // and without a scheduling point (for oracles at quiescence).
 func (c *Conn) TryFrames() [][]byte {
+	c.mu.Lock()
+	defer c.mu.Unlock()
 	d := c.r
 	var out [][]byte
-	for len(d.buf) >= 4 {
-		n := int(binary.LittleEndian.Uint32(d.buf))
-		if n < 4 || len(d.buf) < n {
+	for {
+		n, full := frameLen(d.buf)
+		if !full {
 			break
 		}
 		out = append(out, append([]byte(nil), d.buf[:n]...))
